@@ -144,8 +144,26 @@ def body_after_traffic(rep, case):
     from ..fake import net, udptx
     from .c07 import valid_fields
 
+    inside = []
+
+    def hook(device):
+        # an application that builds device objects of its own while handling a broadcast (restoring a saved registry):
+        # the classes guard their types inside a callback exactly as anywhere else
+        dev_ = _dev()
+        f = {"on": True, "id": "0a0b0c", "key": "18", "ip": "10.0.0.9", "mac": "02:00:00:00:00:09", "name": "kept", "power": 100, "n": len(inside)}
+        for cls_name, cat in CLASS_CATEGORY.items():
+            for dtype in dev_.DeviceType:
+                try:
+                    construct(cls_name, dtype, f)
+                    ok = True
+                except Exception:
+                    ok = False
+                if ok != (dtype.category.name == cat):
+                    inside.append((cls_name, dtype.name, ok))
+
     async def run():
         rig = udptx.Rig(2)
+        rig.hook = hook
         await rig.start()
         try:
             try:
@@ -173,6 +191,10 @@ def body_after_traffic(rep, case):
             await rig.stop()
     n = net.run(run(), timeout=60)
     rep.tick("tables-after-traffic", key=("traffic", case.get("seed", 0)), nontrivial=True, sample={"broadcasts_delivered": n})
+    if inside:
+        cls_name, tname, ok = inside[0]
+        raise Violation(f"C19/{'foreign-type-accepted' if ok else 'own-type-refused'}/{cls_name}/inside-a-bridge-callback", case,
+                        "the same answer as outside a callback", {"class": cls_name, "type": tname, "accepted": ok})
     body_tables(rep, case)
 
 
